@@ -394,15 +394,15 @@ func (ctx *_builtinJSON_stringifyContext) str(key Value, holder *Object) bool {
 }
 
 func (ctx *_builtinJSON_stringifyContext) ja(array *Object) {
-	var stepback string
-	if ctx.gap != "" {
-		stepback = ctx.indent
-		ctx.indent += ctx.gap
-	}
 	length := toLength(array.self.getStr("length", nil))
 	if length == 0 {
 		ctx.buf.WriteString("[]")
 		return
+	}
+	var stepback string
+	if ctx.gap != "" {
+		stepback = ctx.indent
+		ctx.indent += ctx.gap
 	}
 
 	ctx.buf.WriteByte('[')
@@ -483,8 +483,10 @@ func (ctx *_builtinJSON_stringifyContext) jo(object *Object) {
 		if ctx.gap != "" {
 			ctx.buf.WriteByte('\n')
 			ctx.buf.WriteString(stepback)
-			ctx.indent = stepback
 		}
+	}
+	if ctx.gap != "" {
+		ctx.indent = stepback
 	}
 	ctx.buf.WriteByte('}')
 }
